@@ -465,6 +465,8 @@ def run_combo(ctx, combo, bound, limit):
                     ctx.violation("schedule", case, unmatched)
             elif fails:
                 ctx.case(case, nt, [], fails[:4], count=False, kind="schedule")
+            if seen_fail[0] >= 2:
+                return None         # two violations of this combination are reported: stop its search
             return s.decisions
         n = SCH.explore(once, bound, limit)
         ctx.extra["schedules_enumerated"] = ctx.extra.get("schedules_enumerated", 0) + n
